@@ -623,6 +623,9 @@ def competition_summary(comp: "Competition") -> dict:
 
 def _is_all_settled(comp, u, g, pol) -> bool:
     from .rules_ift import classify_guard
+    t = g if pol else mk_not(g)
+    if t[0] == "not" and t[1][0] == "call" and t[1][1] in (("mod", "numpy.isnan"), ("mod", "math.isnan")):
+        return True  # `if isnan(w): continue`: restricts nothing (a NaN never wins a comparison)
     return classify_guard(comp, u, g, pol, None).endswith("(all settled)")
 
 
